@@ -539,7 +539,23 @@ pub fn oracle_one(c: &[u64]) -> Vec<String> {
     let mut s = [res_dim(c[7], c[8], basis[0]), res_dim(c[9], c[10], basis[1])];
     let mut mn = [res_dim(c[11], c[12], basis[0]), res_dim(c[13], c[14], basis[1])];
     let mx = [res_dim(c[15], c[16], basis[0]), res_dim(c[17], c[18], basis[1])];
+    let s0 = s;
     if let Some(rt) = ratio {
+        // where the property is explicit about the ratio (C19_ratio_transfer): border-box, no min/max, exactly one axis of
+        // the style size definite and not below padding+border -> the other axis is transferred
+        let no_minmax = (11..19).step_by(2).all(|i| c[i] == 0);
+        if c[3] == 0 && no_minmax && rt > 0.0 {
+            let exp = match (s0[0], s0[1]) {
+                (Some(a), None) if a >= pb[0] => Some((a, (a / rt).max(pb[1]))),
+                (None, Some(bb)) if bb * rt >= pb[0] => Some((bb * rt, bb.max(pb[1]))),
+                _ => None,
+            };
+            if let Some((ew, eh)) = exp {
+                if !(tol(w, ew) && tol(h, eh)) {
+                    fails.push(format!("aspect ratio {rt}: size {w}x{h} but the transferred size is {ew}x{eh}"));
+                }
+            }
+        }
         for v in [&mut s, &mut mn] {
             match (v[0], v[1]) {
                 (Some(a), None) => v[1] = Some(a / rt),
